@@ -322,8 +322,21 @@ def check_property(pid, tier, seed, replay=None):
         okd, outd, errsd = lake_build(["driver"])
         if not okd:
             proof_problems.append("lake build driver failed: %s" % "; ".join(errsd[:6])[:1500])
+        # 2b. further theorem modules this property draws on (e.g. the whole-instrument corollaries): built and audited alike
+        extra_thms = {}
+        for emod, names in P.get("extra", []):
+            oke, oute, errse = lake_build([emod])
+            if not oke:
+                proof_problems.append("lake build %s failed: %s" % (emod, "; ".join(errse[:6])[:1500]))
+                ok = False
+            allt = theorems_of(emod)
+            pick = [t for t in allt if t.split(".")[-1] in names]
+            missing = sorted(set(names) - {t.split(".")[-1] for t in pick})
+            if missing:
+                proof_problems.append("theorems %s not found in %s" % (missing, emod))
+            extra_thms[emod] = pick
         # 3. audit
-        deps = sorted(module_deps(mod))
+        deps = sorted(set(module_deps(mod)).union(*[module_deps(m) for m in extra_thms] or [set()]))
         files = [os.path.join(LEAN, *m.split(".")) + ".lean" for m in deps]
         tok_hits = audit_tokens([f for f in files if os.path.exists(f)] + [os.path.join(LEAN, "Driver.lean")])
         for h in tok_hits:
@@ -332,6 +345,10 @@ def check_property(pid, tier, seed, replay=None):
         discharged = 0
         if ok:
             axioms, axout = print_axioms(mod, thms)
+            for emod, pick in extra_thms.items():
+                ax2, _ = print_axioms(emod, pick)
+                axioms.update(ax2)
+                thms = thms + pick
             for t in thms:
                 if t not in axioms:
                     proof_problems.append("theorem %s: axioms could not be printed" % t)
